@@ -27,6 +27,7 @@ pub fn list() -> Vec<(&'static str, super::Scenario)> {
         ("wake_stale_entry", wake_stale_entry),
         ("indep_race", indep_race),
         ("indep_despawn", indep_despawn),
+        ("indep_raise", indep_raise),
         ("panic_many", panic_many),
         ("sync_wipe", sync_wipe),
     ]
@@ -658,6 +659,47 @@ fn indep(cfg: &Cfg) {
     shutdown();
 }
 
+/// C10: the pool is saturated (maximum `pool`), more objects than that have work waiting, some of it blocking; then the
+/// maximum is raised to `to` through the public `set_max_threads`: every waiting object that fits under the new maximum
+/// must be served although the objects ahead of it stay blocked.
+fn indep_raise(cfg: &Cfg) {
+    use desync::scheduler::scheduler;
+    let pool = cfg.pool();
+    setup(pool);
+    let to = cfg.get("to") as usize;
+    let w = World::new();
+    w.prelude(cfg);
+    let mut objs = vec![];
+    let mut bgs = vec![];
+    // `pool` blocking jobs pin every existing thread; `to - pool - 1` more blocking jobs and one plain job wait in the schedule
+    for i in 0..(to - 1) {
+        let o = w.raw();
+        let bg = BGate::new();
+        w.desync(&o, &format!("BLK{}", i), Body::blocking(&bg));
+        if i < pool {
+            rt::quiesce();
+        }
+        objs.push(o);
+        bgs.push(bg);
+    }
+    let f = w.raw();
+    w.desync(&f, "F1", Body::plain());
+    rt::quiesce();
+    rt::set_census_limit(POOL_NAME, to);
+    scheduler().set_max_threads(to);
+    rt::quiesce();
+    if !w.rec.all().iter().any(|o| o.name == "F1" && !o.ends.is_empty()) {
+        rt::violation(format!("INDEP F1 did not run after the pool maximum was raised from {} to {} although only {} objects are blocked", pool, to, to - 1));
+    }
+    for bg in &bgs {
+        bg.open();
+    }
+    let mut all: Vec<&Obj> = objs.iter().collect();
+    all.push(&f);
+    finish(&w, &all, to);
+    shutdown();
+}
+
 /// C10 + C17: the maximum is lowered while one surplus pool thread is pinned by a job blocked on an external gate; a caller
 /// is inside `despawn_threads_if_overloaded` (which may have to wait for that thread).  The pool still has a free thread
 /// and the maximum exceeds the number of blocked objects: work on other objects must run while the gate is still closed.
@@ -693,11 +735,24 @@ fn indep_despawn(cfg: &Cfg) {
     });
     let f = w.raw();
     let (w1, f1) = (w.clone(), f.clone());
+    // `fop`=1: the operation on the free object is a sync whose closure queues more work on the same object (so the sync has
+    // to reschedule its queue when it finishes)
+    let fop = cfg.opt("fop", 0);
     let t = spawn(move || {
-        w1.desync(&f1, "F1", Body::plain());
+        if fop == 1 {
+            let (w2, f2) = (w1.clone(), f1.clone());
+            w1.sync(&f1, "F1", Body::with(move || { w2.desync(&f2, "F1n", Body::plain()); }));
+        } else {
+            w1.desync(&f1, "F1", Body::plain());
+        }
     });
     rt::quiesce();
-    if !w.rec.all().iter().any(|o| o.name == "F1" && !o.ends.is_empty()) {
+    let f1_rec = w.rec.all().into_iter().find(|o| o.name == "F1");
+    if fop == 1 {
+        if f1_rec.map(|o| o.ret.is_none()).unwrap_or(true) {
+            rt::violation(format!("SYNC-STALL sync on a free object (nothing ahead of it) did not return while another object's job was blocked and a caller was despawning surplus threads (pool maximum lowered from {} to {})", pool, lower));
+        }
+    } else if !f1_rec.map(|o| !o.ends.is_empty()).unwrap_or(false) {
         rt::violation(format!("INDEP F1 on a free object did not run while one object was blocked and a caller was despawning surplus threads (pool maximum lowered from {} to {})", pool, lower));
     }
     bgs[keep].open();
@@ -739,7 +794,7 @@ fn drop_obj(cfg: &Cfg) {
         }
         6 => {
             // a future operation whose future is polled once (dropper 4) by a task whose waker owns the last reference
-            held = Some(w.future_desync(&o, "FD", Body::gated(&g)));
+            held = Some(w.future_desync(&o, "FD", Body { gate: Some(g.clone()), self_wake: cfg.opt("selfwake", 0) == 1, ..Body::default() }));
         }
         1 => {
             w.desync(&o, "Dblk", Body::blocking(&bg));
@@ -801,6 +856,7 @@ fn drop_obj(cfg: &Cfg) {
     }
     let mut kept_future = None;
     let mut late_release = None;
+    let mut no_final_judgement = false;
     match dropper {
         4 => {
             // cancel-on-wake: the task's waker holds the last owner and releases it, on whatever thread delivers the wake-up,
@@ -850,6 +906,33 @@ fn drop_obj(cfg: &Cfg) {
                 rec.ret(dop);
                 check_after_drop(&rec);
             }));
+        }
+        7 => {
+            // the task that owns the last reference polls the future operation's future with a waker that *panics* inside wake();
+            // the operation wakes itself during that poll (`selfwake`=1), so the panic comes out of the poll while the operation
+            // is suspended with the value borrowed; the unwinding task drops the future and the last reference.  (What becomes
+            // of the value is not judged here - the object saw a panic - only that nothing touches it after its destruction.)
+            struct PanicOnWake;
+            impl futures::task::ArcWake for PanicOnWake {
+                fn wake_by_ref(_: &Arc<Self>) {
+                    panic!("PLANNED-PANIC in the task's waker");
+                }
+            }
+            let mut h = held.take().expect("dropper=7 needs state=6");
+            w.rec.set_may_not_run(h.op);
+            no_final_judgement = true;
+            let rec1 = rec.clone();
+            let t = vsched::thread::spawn(move || {
+                let dop = rec1.inv("DROP", st.id, Kind::Drop);
+                rec1.set_may_not_run(dop);
+                let _owner = o;
+                let mut f = Box::pin(h.fut.take().unwrap());
+                let waker = futures::task::waker(Arc::new(PanicOnWake));
+                let mut cx = futures::task::Context::from_waker(&waker);
+                use std::future::Future;
+                let _ = f.as_mut().poll(&mut cx);
+            });
+            panicking.push(t);
         }
         5 | 6 => {
             // a thread that is unwinding from an unrelated panic uses the object from a destructor (a "flush on drop" guard that
@@ -956,6 +1039,17 @@ fn drop_obj(cfg: &Cfg) {
     }
     if pool == 0 {
         w.sync(&helper, "kick", Body::plain());
+    }
+    if no_final_judgement {
+        // (the suspended operation and its destructor go away with the gate that still holds its waker)
+        drop(g);
+        rt::quiesce();
+        if w.payload_drops.load(AO::SeqCst) > 1 {
+            rt::violation(format!("DROP-COUNT payload destroyed {} times", w.payload_drops.load(AO::SeqCst)));
+        }
+        check_no_unplanned_panics_except(&["on a panicked queue"]);
+        shutdown();
+        return;
     }
     w.check_quiet();
     if w.payload_drops.load(AO::SeqCst) != 1 {
@@ -1105,6 +1199,7 @@ fn panic_contain(cfg: &Cfg) {
     let bad = w.raw();
     let good = w.raw();
     let qbad = match &bad { Obj::Raw(q, _) => q.clone(), _ => unreachable!() };
+    let revive_gate = Gate::new_keep_stale();
     match ctx {
         0 => {
             w.desync(&bad, "BOOM", Body::panicking());
@@ -1122,6 +1217,20 @@ fn panic_contain(cfg: &Cfg) {
             let _ = t.join();
         }
         4 => {
+            // `revive`=1: beforehand, with one pool thread, a future operation came and went on this queue and left a (stale)
+            // queue waker behind; the pool is then taken away for the panic phase, comes back, and the stale waker fires
+            if cfg.opt("revive", 0) == 1 {
+                use desync::scheduler::scheduler;
+                scheduler().verif_set_max_threads(1);
+                rt::set_census_limit(POOL_NAME, 1);
+                w.future_desync(&bad, "EARLY-FD", Body::gated(&revive_gate)).detach();
+                rt::quiesce();
+                revive_gate.open();
+                rt::quiesce();
+                scheduler().verif_set_max_threads(0);
+                scheduler().despawn_threads_if_overloaded();
+                rt::set_census_limit(POOL_NAME, 0);
+            }
             // the panicking future is run by a thread draining the queue inside sync
             w.future_desync(&bad, "BOOM-FD", Body { panic: true, self_wake, ..Body::default() }).detach();
             let (w1, b1) = (w.clone(), bad.clone());
@@ -1147,6 +1256,13 @@ fn panic_contain(cfg: &Cfg) {
         _ => {
             w.future_desync(&bad, "BOOM-FD", Body { panic: true, self_wake, ..Body::default() }).detach();
         }
+    }
+    if cfg.opt("revive", 0) == 1 {
+        use desync::scheduler::scheduler;
+        scheduler().verif_set_max_threads(pool.max(1));
+        rt::set_census_limit(POOL_NAME, pool.max(1));
+        revive_gate.fire_stale();
+        rt::quiesce();
     }
     // concurrent healthy work while the panic unwinds
     w.desync(&good, "G1", Body::plain());
